@@ -348,7 +348,11 @@ fn big_sym(nfuncs: u64, nlines: u64, nfiles: u64, seed: u64) -> (Vec<u8>, Vec<u3
     }
     let mut addrs = vec![0u32, 0xffff_ffff];
     let mut a: u64 = 0x1000;
+    // blocks in ascending address order for an odd seed, in DESCENDING order for an even one (the worst case of
+    // an insertion-based sort; dump_syms writes ascending files, the property quantifies over all)
+    let mut blocks: Vec<Vec<u8>> = Vec::with_capacity(nfuncs as usize);
     for f in 0..nfuncs {
+        let mut t = Vec::with_capacity(96 + 16 * nlines as usize);
         let per = 4 + rng.below(12);
         let size = per * nlines.max(1);
         if a + size + 16 > 0xffff_0000 {
@@ -369,6 +373,13 @@ fn big_sym(nfuncs: u64, nlines: u64, nfiles: u64, seed: u64) -> (Vec<u8>, Vec<u3
             let _ = writeln!(t, "PUBLIC {a:x} 0 public_symbol_{f}");
             a += 16;
         }
+        blocks.push(t);
+    }
+    if seed % 2 == 0 {
+        blocks.reverse();
+    }
+    for b in &blocks {
+        t.extend_from_slice(b);
     }
     addrs.push(a as u32);
     (t, addrs)
@@ -782,10 +793,11 @@ fn exec_explore(w: &[&str], overlay: &mut HashMap<String, Bytes>, stats: &mut St
                     Ok(_) => return "notobject".to_string(),
                     Err(_) => return "badjson".to_string(),
                 }
-                // size-relative CPU budget of the calling thread: 0.5 s + 10 ns * n * log2 n (n = bytes of the file);
-                // measured on the harness profile: 0.3 ns * n * log2 n (2 MiB: 14 ms), i.e. a margin of 30x and more
+                // size-relative CPU budget of the calling thread: 0.2 s + 3 ns * n * log2 n (n = bytes of the file).
+                // Measured on the harness profile: about 0.3 ns * n * log2 n (2 MiB: 14 ms; 4 MiB: 30 ms), i.e. a
+                // margin of 10x and more; an insertion-based sort on the 40 000-block descending file needs 1 s.
                 let used = own_cpu().saturating_sub(t0);
-                let budget = Duration::from_millis(500) + Duration::from_nanos((10.0 * n as f64 * (n as f64).log2()) as u64);
+                let budget = Duration::from_millis(200) + Duration::from_nanos((3.0 * n as f64 * (n as f64).log2()) as u64);
                 st.add("bigsym_cpu_ms", used.as_millis() as u64);
                 st.add("bigsym_bytes", n as u64);
                 if used > budget {
